@@ -364,23 +364,31 @@ pub enum Calc {
     None,
     Const(u16),
     PcDep,
+    /// depends on the program text (its length) as well as on the pc
+    ProgDep,
 }
 
-fn calc_value(c: Calc, pc: usize) -> u64 {
+fn calc_value_n(c: Calc, pc: usize, n_insns: usize) -> u64 {
     match c {
         Calc::None => 256,
         Calc::Const(v) => v as u64,
         Calc::PcDep => (16 + 8 * pc as u64) & 0xffff,
+        Calc::ProgDep => 16 + 8 * ((n_insns + pc) % 32) as u64,
     }
 }
 
-fn calc_fn(_prog: &[u8], pc: usize, data: &mut dyn std::any::Any) -> u16 {
+fn calc_value(c: Calc, pc: usize) -> u64 {
+    calc_value_n(c, pc, 0)
+}
+
+fn calc_fn(prog: &[u8], pc: usize, data: &mut dyn std::any::Any) -> u16 {
+    let n_insns = prog.len() / 8;
     // rbpf hands over `&mut Box<dyn Any>` coerced to `&mut dyn Any`: the payload is one level down
     let mode = match data.downcast_ref::<Calc>() {
         Some(m) => *m,
         None => *data.downcast_ref::<Box<dyn std::any::Any>>().and_then(|b| b.downcast_ref::<Calc>()).expect("calculator data"),
     };
-    calc_value(mode, pc) as u16
+    calc_value_n(mode, pc, n_insns) as u16
 }
 
 #[derive(Clone, Copy, Debug)]
@@ -395,6 +403,11 @@ pub struct C07Case {
     pub vsel: u8,
     /// every non-leaf function calls its callee twice (a second call after the first returned)
     pub twice: bool,
+    /// a packet load (ldabsb) is the instruction immediately before every local call
+    pub ld_before_call: bool,
+    /// the VM is created with another program, the calculator is registered, and only then the
+    /// program under test is loaded with set_program
+    pub reload: bool,
 }
 
 pub fn c07_program(c: &C07Case) -> Vec<I> {
@@ -484,7 +497,14 @@ pub fn c07_program(c: &C07Case) -> Vec<I> {
         if i < d {
             f.push(isa::mov64r(5, 10));
             f.push(isa::mov64r(3, 4)); // r3 passes through the call: checked by the callee's use of r4/r3
+            if c.ld_before_call {
+                f.push(isa::mov64r(9, 0)); // accumulator saved in a callee-saved register
+                f.push(I::new(0x30, 0, 0, 0, 0)); // ldabsb 0 -> r0
+            }
             f.push(isa::call_local(0)); // patched
+            if c.ld_before_call {
+                f.push(isa::add64r(0, 9));
+            }
             // after return: r0..r5 are as the callee left them; fold callee-saved and own stack
             f.push(isa::add64r(0, 3));
             if c.twice {
@@ -543,15 +563,20 @@ pub fn c07_program(c: &C07Case) -> Vec<I> {
 fn c07_check(s: &mut Sink, eng: Eng, c: &C07Case) {
     let prog = c07_program(c);
     let bytes = isa::enc(&prog);
-    let rp = json!({"kind":"local-call","eng":eng.name(),"depth":c.depth,"reversed":c.reversed,"body":c.body,"recursive":c.recursive,"vsel":c.vsel,"twice":c.twice,
-                    "calc": match c.calc { Calc::None => json!("none"), Calc::Const(v) => json!(v), Calc::PcDep => json!("pc") }});
-    let class = format!("{}{}{}", if c.recursive { "recursion" } else if c.twice { "tree" } else { "chain" }, if c.reversed { "-backward" } else { "" }, match c.calc { Calc::None => "", Calc::PcDep => "+calc(pc)", Calc::Const(_) => "+calc" });
+    let rp = json!({"kind":"local-call","eng":eng.name(),"depth":c.depth,"reversed":c.reversed,"body":c.body,"recursive":c.recursive,"vsel":c.vsel,"twice":c.twice,"ld_before_call":c.ld_before_call,"reload":c.reload,
+                    "calc": match c.calc { Calc::None => json!("none"), Calc::Const(v) => json!(v), Calc::PcDep => json!("pc"), Calc::ProgDep => json!("prog") }});
+    let class = format!("{}{}{}", if c.recursive { "recursion" } else if c.twice { "tree" } else { "chain" }, if c.reversed { "-backward" } else { "" }, match c.calc { Calc::None => "", Calc::PcDep => "+calc(pc)", Calc::ProgDep => "+calc(prog)", Calc::Const(_) => "+calc" });
     s.count("evaluations", 1);
     s.count("states", 1);
-    let mut m = isaeng::model_for(&prog, VmKind::NoData, &[], &[], true);
+    let kind = if c.ld_before_call { VmKind::Raw } else { VmKind::NoData };
+    let packet: Vec<u8> = if c.ld_before_call { vec![7, 1, 2, 3, 4, 5, 6, 7, 8, 9, 10, 11, 12, 13, 14, 15] } else { vec![] };
+    let pbuf = Buf::new(packet.len(), 0);
+    pbuf.fill(&packet);
+    let mut m = isaeng::model_for(&prog, kind, &packet, &[], true);
     let calc = c.calc;
+    let n_insns = prog.len();
     if calc != Calc::None {
-        m.usage_of = Some(Box::new(move |pc| calc_value(calc, pc)));
+        m.usage_of = Some(Box::new(move |pc| calc_value_n(calc, pc, n_insns)));
     }
     m.max_steps = 20_000;
     let end = m.run();
@@ -570,7 +595,8 @@ fn c07_check(s: &mut Sink, eng: Eng, c: &C07Case) {
         s.violation("harness/local-call/malformed-template", w.to_string(), rp.clone());
         return;
     }
-    let mut vmx = match AnyVm::new(VmKind::NoData, Some(&bytes)) {
+    let other = isa::enc(&[isa::mov64i(0, 0), isa::EXIT]);
+    let mut vmx = match AnyVm::new(kind, Some(if c.reload { &other } else { &bytes })) {
         Ok(v) => v,
         Err(e) => {
             s.violation(&format!("verifier/{class}/rejects-template"), e, rp.clone());
@@ -591,8 +617,15 @@ fn c07_check(s: &mut Sink, eng: Eng, c: &C07Case) {
             }
         }
     }
+    if c.reload {
+        if let Err(e) = vmx.set_program(&bytes, (0, 0)) {
+            s.violation(&format!("verifier/{class}/rejects-template"), e, rp.clone());
+            return;
+        }
+    }
+    let mem = if c.ld_before_call { pbuf.raw() } else { vm::empty_raw() };
     rbpf::verif_hooks::set_insn_budget(Some(m.steps * 2 + 1000));
-    let io = Obs { out: vmx.exec_out(Eng::Interp, vm::empty_raw(), vm::empty_raw()), packet: vec![], mbuff: vec![] };
+    let io = Obs { out: vmx.exec_out(Eng::Interp, mem, vm::empty_raw()), packet: pbuf.bytes().to_vec(), mbuff: vec![] };
     rbpf::verif_hooks::set_insn_budget(None);
     if eng == Eng::Interp {
         s.count("traces_validated_against_impl", 1);
@@ -621,13 +654,14 @@ fn c07_check(s: &mut Sink, eng: Eng, c: &C07Case) {
             return;
         }
     }
-    let o = Obs { out: vmx.exec_out(eng, vm::empty_raw(), vm::empty_raw()), packet: vec![], mbuff: vec![] };
+    pbuf.fill(&packet);
+    let o = Obs { out: vmx.exec_out(eng, mem, vm::empty_raw()), packet: pbuf.bytes().to_vec(), mbuff: vec![] };
     s.count("traces_validated_against_impl", 1);
     s.count("distinct_nontrivial", 1);
     if let Some((sym, det)) = cmp_with_interp(&m, &io, &o) {
         // Deviation model of the recorded finding: the JIT does not lower r10 on a local call
         // (frame distance 0: the callee's frame aliases the caller's), whatever the calculator.
-        let mut q = isaeng::model_for(&prog, VmKind::NoData, &[], &[], true);
+        let mut q = isaeng::model_for(&prog, kind, &packet, &[], true);
         q.usage_of = Some(Box::new(|_| 0));
         q.max_steps = 20_000;
         let qend = q.run();
@@ -642,9 +676,9 @@ fn c07_check(s: &mut Sink, eng: Eng, c: &C07Case) {
 fn c07_cases(thorough: bool) -> Vec<C07Case> {
     let mut v = vec![];
     let calcs: Vec<Calc> = if thorough {
-        vec![Calc::None, Calc::Const(0), Calc::Const(8), Calc::Const(64), Calc::Const(256), Calc::Const(512), Calc::Const(65535), Calc::PcDep]
+        vec![Calc::None, Calc::Const(0), Calc::Const(8), Calc::Const(64), Calc::Const(256), Calc::Const(512), Calc::Const(65535), Calc::PcDep, Calc::ProgDep]
     } else {
-        vec![Calc::None, Calc::Const(0), Calc::Const(64), Calc::Const(512), Calc::PcDep]
+        vec![Calc::None, Calc::Const(0), Calc::Const(64), Calc::Const(512), Calc::PcDep, Calc::ProgDep]
     };
     for depth in 0..=9u8 {
         for reversed in [false, true] {
@@ -652,9 +686,17 @@ fn c07_cases(thorough: bool) -> Vec<C07Case> {
                 for calc in &calcs {
                     let vs: Vec<u8> = if thorough { (0..31).collect() } else { vec![1, 22, 28] };
                     for vsel in vs {
-                        v.push(C07Case { depth, reversed, body, calc: *calc, recursive: false, vsel, twice: false });
+                        v.push(C07Case { depth, reversed, body, calc: *calc, recursive: false, vsel, twice: false, ld_before_call: false, reload: false });
                         if depth >= 1 && depth <= 4 && (thorough || vsel == 1) {
-                            v.push(C07Case { depth, reversed, body, calc: *calc, recursive: false, vsel, twice: true });
+                            v.push(C07Case { depth, reversed, body, calc: *calc, recursive: false, vsel, twice: true, ld_before_call: false, reload: false });
+                        }
+                        if depth >= 1 && (thorough || vsel == 1) {
+                            // loaded with set_program after the calculator was registered
+                            v.push(C07Case { depth, reversed, body, calc: *calc, recursive: false, vsel, twice: false, ld_before_call: false, reload: true });
+                            // a packet load right before every call (bodies that leave r9 free)
+                            if body & 9 == 0 {
+                                v.push(C07Case { depth, reversed, body, calc: *calc, recursive: false, vsel, twice: depth <= 3, ld_before_call: true, reload: false });
+                            }
                         }
                     }
                 }
@@ -662,7 +704,7 @@ fn c07_cases(thorough: bool) -> Vec<C07Case> {
         }
         for body in 0..4u8 {
             for calc in &calcs {
-                v.push(C07Case { depth, reversed: true, body, calc: *calc, recursive: true, vsel: 5, twice: false });
+                v.push(C07Case { depth, reversed: true, body, calc: *calc, recursive: true, vsel: 5, twice: false, ld_before_call: false, reload: false });
             }
         }
     }
@@ -675,7 +717,8 @@ pub fn run_c07(s: &mut Sink) {
     s.meta.insert("alphabet".into(), json!({
         "call_graphs": "chains main -> f1 -> ... -> fd for d = 0..9 laid out forward or backward (negative displacements); binary call trees (every function calls its callee twice) of depth 1..4; self-recursion bounded by a counter in r1 for depth 0..9",
         "bodies": "16 combinations of {set r6-r9 in every function, stack tag at [r10-8] written and read back after the call, lowest slot of the frame touched, helper call inside every function}",
-        "calculators": if thorough {"none, const 0, 8, 64, 256, 512, 65535, pc-dependent 16+8*pc"} else {"none, const 0, 64, 512, pc-dependent 16+8*pc"},
+        "calculators": if thorough {"none, const 0, 8, 64, 256, 512, 65535, pc-dependent 16+8*pc, program-dependent 16+8*((len+pc)%32)"} else {"none, const 0, 64, 512, pc-dependent, program-dependent"},
+        "variants": "program loaded with set_program after another program and the calculator (reload); a packet load (ldabsb) immediately before every call, on a raw VM",
         "register_contents": if thorough {"all 31 V64 values"} else {"3 V64 values"},
         "engines": ["interp (vs reference machine)", "jit (vs interpreter where defined)"],
     }));
@@ -695,8 +738,8 @@ pub fn run_c07(s: &mut Sink) {
             }
             for c in chunk {
                 let cc = *c;
-                let rp = json!({"kind":"local-call","eng":eng.name(),"depth":c.depth,"reversed":c.reversed,"body":c.body,"recursive":c.recursive,"vsel":c.vsel,"twice":c.twice,
-                    "calc": match c.calc { Calc::None => json!("none"), Calc::Const(v) => json!(v), Calc::PcDep => json!("pc") }});
+                let rp = json!({"kind":"local-call","eng":eng.name(),"depth":c.depth,"reversed":c.reversed,"body":c.body,"recursive":c.recursive,"vsel":c.vsel,"twice":c.twice,"ld_before_call":c.ld_before_call,"reload":c.reload,
+                    "calc": match c.calc { Calc::None => json!("none"), Calc::Const(v) => json!(v), Calc::PcDep => json!("pc"), Calc::ProgDep => json!("prog") }});
                 s.mark(idx, &format!("{}/local-call", eng.name()), &rp);
                 run_group(s, eng, "local-call", &rp, move |cs| c07_check(cs, eng, &cc));
             }
@@ -709,10 +752,11 @@ pub fn replay_c07(v: &Value) -> Vec<String> {
     let eng = Eng::parse(v["eng"].as_str().unwrap());
     let calc = match &v["calc"] {
         Value::String(x) if x == "none" => Calc::None,
+        Value::String(x) if x == "prog" => Calc::ProgDep,
         Value::String(_) => Calc::PcDep,
         x => Calc::Const(x.as_u64().unwrap() as u16),
     };
-    let c = C07Case { depth: v["depth"].as_u64().unwrap() as u8, reversed: v["reversed"].as_bool().unwrap(), body: v["body"].as_u64().unwrap() as u8, calc, recursive: v["recursive"].as_bool().unwrap(), vsel: v["vsel"].as_u64().unwrap() as u8, twice: v["twice"].as_bool().unwrap_or(false) };
+    let c = C07Case { depth: v["depth"].as_u64().unwrap() as u8, reversed: v["reversed"].as_bool().unwrap(), body: v["body"].as_u64().unwrap() as u8, calc, recursive: v["recursive"].as_bool().unwrap(), vsel: v["vsel"].as_u64().unwrap() as u8, twice: v["twice"].as_bool().unwrap_or(false), ld_before_call: v["ld_before_call"].as_bool().unwrap_or(false), reload: v["reload"].as_bool().unwrap_or(false) };
     let mut s = Sink::new("replay", Tier::Quick, 0, 1, None, None, 3600);
     let rp = v.clone();
     run_group(&mut s, eng, "local-call", &rp, move |cs| c07_check(cs, eng, &c));
